@@ -332,7 +332,10 @@ def run(ctx, out, tier):
         bi, t = calls[0]
         resolve = asyncval.task_resolver(ctx, co, task)
         alls = [resolve(ctx.prov.read_operand(task, a)) for a in t["args"]]
-        if any(P.has_const(a, NAME) and P.has_path(a, "attributes") for a in alls):
+        # (the argument produced by the content selector is the content, whatever else the block index it
+        # was cut with has been through)
+        is_content = lambda a: P.has_call(a, r"check_ai::block_content$")      # noqa: E731
+        if any(P.has_const(a, NAME) and P.has_path(a, "attributes") and not is_content(a) for a in alls):
             k += 1
         else:
             out.viol("C19.args", "C19.args|condition", ctx.where(task, t["span"]), "no argument of check_block derives from the block's `check-ai` attribute (the condition)")
@@ -342,7 +345,7 @@ def run(ctx, out, tier):
             out.viol("C19.args", "C19.args|content", ctx.where(task, t["span"]), "no argument of check_block comes from the content selector")
         # the condition is passed as written (not transformed)
         for a in alls:
-            if P.has_const(a, NAME) and P.has_path(a, "attributes"):
+            if P.has_const(a, NAME) and P.has_path(a, "attributes") and not is_content(a):
                 tr = sorted({l[1].split("::")[-1] for l in a if l[0] == "call" and re.search(r"trim|to_lowercase|to_uppercase|replace", l[1])})
                 if tr:
                     out.viol("C19.args", "C19.args|condition-transformed", ctx.where(task, t["span"]), "the condition is transformed (%s) before it is sent" % tr)
